@@ -176,7 +176,7 @@ template <class T> static bool exec_buf_t(Ctx &c, const Op &op) {
         char e[32]; std::snprintf(e, sizeof e, "dst=%c", cl(dst)); note_sig<T>(c, op, e);
         if (dst->moved_from) c.touched_moved_from = true;
         as_target(dst);
-        ExcKind ex = run_sut(c, op, [&] { dst->p()->clear(); });
+        ExcKind ex = run_sut(c, op, [&] { if (op.b % 3 == 2) *dst->p() = ST::null; else dst->p()->clear(); });      // (assigning ST::null is the other spelling of clear())
         if (settle(c, op, ex, 0)) { crossing<T>(c, dst->model.size(), 0); dst->model.clear(); dst->moved_from = false; }
         return true;
     }
@@ -196,6 +196,7 @@ template <class T> static bool exec_buf_t(Ctx &c, const Op &op) {
                 Buf &nb = *o->p();
                 for (size_t i = 0; i < m.size(); i++) if (nb.at(i) != m[i] || nb[i] != m[i]) { ok = false; why = "non-const at()/operator[]"; }
                 if (nb.front() != (m.empty() ? T(0) : m.front()) || nb.back() != (m.empty() ? T(0) : m.back())) { ok = false; why = "non-const front()/back()"; }
+                if (&nb.front() != nb.data() || &nb.back() != nb.data() + (m.empty() ? 0 : m.size() - 1)) { ok = false; why = "non-const front()/back() refer to another element"; }
                 Str f(nb.begin(), nb.end()), r(nb.rbegin(), nb.rend()); Str mr(m.rbegin(), m.rend());
                 if (f != m || r != mr || nb.data() != b.data()) { ok = false; why = "non-const iterators / data()"; }
                 bool threw = false; try { (void)nb.at(m.size() + (op.a % 3)); } catch (const std::out_of_range &) { threw = true; }
@@ -206,6 +207,7 @@ template <class T> static bool exec_buf_t(Ctx &c, const Op &op) {
                 if (b.size() != m.size() || b.empty() != m.empty()) { ok = false; why = "size()/empty()"; }
                 if (b.c_str() != b.data()) { ok = false; why = "c_str() != data()"; }
                 if (b.front() != (m.empty() ? T(0) : m.front()) || b.back() != (m.empty() ? T(0) : m.back())) { ok = false; why = "front()/back()"; }
+                if (&b.front() != b.data() || &b.back() != b.data() + (m.empty() ? 0 : m.size() - 1)) { ok = false; why = "front()/back() refer to another element"; }
                 break;
             case 1:
                 for (size_t i = 0; i < m.size(); i++) if (b.at(i) != m[i] || b[i] != m[i]) { ok = false; why = "at()/operator[]"; }
